@@ -1025,6 +1025,53 @@ impl Run {
     s.len()
   }
 
+  /// C11: "a read (get, fetch, peek, entry, multiget, iteration, a fetch_with hit) returns either
+  /// nothing or the value of the most recent insert ... never ... an overwritten value after the
+  /// overwrite completed, or a removed value".  `iter_snapshot` reads each value when it is
+  /// yielded, so every item is judged as a point read at the moment `next()` returned; an overwrite
+  /// or remove of `key` completes after `at` items.  Exactly-once / completeness are not judged
+  /// here (the cache is being mutated).
+  fn do_iter_snapshot_mutated(&mut self, at: usize, key: u32, rm: bool) -> Result<(), Failure> {
+    let c = self.cache.clone();
+    let mut it = c.iter_snapshot();
+    let mut n = 0usize;
+    let mut mutated = false;
+    loop {
+      if n == at && !mutated {
+        mutated = true;
+        if rm {
+          self.do_remove(false, key, false)?;
+        } else {
+          self.do_insert(false, key, self.cfg.cost(1), None);
+        }
+        self.rep.class("iter_snapshot_with_mutation_between_items");
+      }
+      match it.next() {
+        Some((k, v)) => {
+          n += 1;
+          if k == SENTINEL_KEY {
+            continue;
+          }
+          let r = self.check_read("itersnapshot", k, Some(&*v), Refresh::Possible);
+          if let Some(w) = self.w.get_mut(&v.wid) {
+            if r.is_ok() && w.idle_hi < self.now {
+              w.idle_hi = self.now;
+            }
+          }
+          if let Err(mut f) = r {
+            if f.property == "C11" || f.property == "C12" {
+              f.property = self.focus_or(if f.property == "C11" { "C11" } else { "C12" }).to_string();
+            }
+            f.message = format!("(item {n} of an iter_snapshot, after a {} of key {key} completed following item {at}) {}", if rm { "remove" } else { "overwrite" }, f.message);
+            return Err(f);
+          }
+        }
+        None => break,
+      }
+    }
+    Ok(())
+  }
+
   fn do_iter(&mut self, kind: IterKind, batch_i: u8, adv: Option<(u16, Adv)>, held_at: &[u16]) -> Result<(), Failure> {
     let batch = BATCHES[batch_i as usize % 6];
     let api = format!("{kind:?}").to_lowercase();
@@ -1539,7 +1586,10 @@ impl Run {
           self.check_read(&api, k, got.get(&k), Refresh::Definite)?;
         }
       }
-      Op::Iter { kind, batch, adv, held_at } => {
+      Op::Iter { kind, batch, adv, held_at, mutate } => {
+        if let (IterKind::IterSnapshot, Some((at, k, rm))) = (kind, mutate) {
+          self.do_iter_snapshot_mutated(*at as usize, *k, *rm)?;
+        }
         self.do_iter(*kind, *batch, *adv, held_at)?;
         flush = self.cfg.introspect;
       }
